@@ -1,4 +1,5 @@
 import XdslProofs.Lemmas.IRStepAll
+import XdslProofs.Lemmas.IRStream
 /-!
 # C01 — IR edits keep the op/block/region tree and use-def chains consistent
 
@@ -14,6 +15,10 @@ of histories).  Lemmas: `XdslProofs/Lemmas/{DLL,IRStore,IRUses,IRStep,IRSubtree,
 
 Part 1 — the list library, proved completely: every primitive preserves the representation
 invariant `DLL.WF` and refines the corresponding operation on abstract lists.
+Part 1b — collection arguments (`Block | Iterable[Block]`) are traversed once: the hand-written
+single-pass loops of `Region.add_block` / `Region.insert_block_before` (`XdslModel/DLLStream.lean`)
+agree on every node and container with the one-block-at-a-time model functions that the harness
+compares the real methods with, for every argument form (list, tuple, generator, iterator, …).
 Part 2 — what the store invariant `Inv` says (the property's sentence, clause by clause).
 Part 3 — `Inv` is preserved by the calls in `covered` (`inv_step_partial`, `inv_history_partial`:
 the 45 non-erasing call kinds, unconditionally).
@@ -146,6 +151,82 @@ example :
 example : ∃ f, WF ((({} : L).pushBack 0 1).pushBack 0 2) f :=
   ⟨_, (wf_empty.pushBack (c := 0) (new := 1) (by simp)).pushBack (c := 0) (new := 2) (by
     intro d; by_cases h : d = 0 <;> simp [h])⟩
+
+/-! ## Part 1b — a collection argument is traversed exactly once
+
+`Region.add_block`, `Region.insert_block_before` (and through them `insert_block_after`,
+`insert_block`, `Region.__init__`, `Rewriter.insert_block`, `Builder.create_block`) accept
+`Block | Iterable[Block]`: a list, a tuple, but also a generator or any other one-shot iterator.
+The methods therefore consume `iter(blocks)` once with `next`, link every block behind the previous
+one and repair the outer link at `StopIteration`.  `XdslModel/DLLStream.lean` has the pointer writes of
+exactly that loop; the theorems say that it yields, on every node and container, what inserting the
+yielded blocks one at a time yields — the function the real methods are compared with by the harness,
+which passes every argument form. -/
+
+/-- `Region.insert_block_before(blocks, t)` on the list level: the blocks are found, in the order
+they were yielded, right before `t`; other containers are untouched; the result is well-formed. -/
+theorem dll_insertStreamBefore {s : L} {f : Nat → List Nat} (h : WF s f) {c t : Nat} {bs : List Nat}
+    (ht : (s.nd t).parent = some c) (hn : bs.Nodup) (hfree : ∀ b ∈ bs, (s.nd b).parent = none) :
+    (∃ f', WF (s.insertStreamBefore c t bs) f') ∧
+    (s.insertStreamBefore c t bs).toList c = bs.foldl (fun l b => insBefore l t b) (s.toList c) ∧
+    (∀ d, d ≠ c → (s.insertStreamBefore c t bs).toList d = s.toList d) ∧
+    L.Ext (s.insertStreamBefore c t bs) (bs.foldl (fun s b => s.insertBefore c t b) s) := by
+  obtain ⟨hext, hw⟩ := h.insertStreamBefore ((h.mem_iff_parent c t).mpr ht) hn
+    (fun b hb => h.not_mem_of_parent_none (hfree b hb))
+  refine ⟨⟨_, hw⟩, ?_, fun d hd => ?_, hext⟩
+  · rw [hw.toList_eq, h.toList_eq, Function.update_self]
+  · rw [hw.toList_eq, h.toList_eq, Function.update_of_ne hd]
+
+/-- `Region.add_block(blocks)` on the list level: the yielded blocks are appended in order -/
+theorem dll_appendStream {s : L} {f : Nat → List Nat} (h : WF s f) {c : Nat} {bs : List Nat}
+    (hn : bs.Nodup) (hfree : ∀ b ∈ bs, (s.nd b).parent = none) :
+    (∃ f', WF (s.appendStream c bs) f') ∧ (s.appendStream c bs).toList c = s.toList c ++ bs ∧
+    (∀ d, d ≠ c → (s.appendStream c bs).toList d = s.toList d) ∧
+    L.Ext (s.appendStream c bs) (bs.foldl (fun s b => s.pushBack c b) s) := by
+  obtain ⟨hext, hw⟩ := h.appendStream (c := c) hn (fun b hb => h.not_mem_of_parent_none (hfree b hb))
+  refine ⟨⟨_, hw⟩, ?_, fun d hd => ?_, hext⟩
+  · rw [hw.toList_eq, h.toList_eq, Function.update_self]
+  · rw [hw.toList_eq, h.toList_eq, Function.update_of_ne hd]
+
+/-- On consistent IR a successful `Region.insert_block_before` (model function `insertBlockBefore`, the
+`_attach_block` guard before every block) leaves exactly the block links of the single-pass loop, the
+blocks are listed in yield order before `t`, and they were pairwise distinct. -/
+theorem insert_block_before_single_pass {s s' : IRStore} (h : Inv s) {r t : Nat} {bs : List Nat}
+    (hok : s.insertBlockBefore r bs t = .ok s') :
+    L.Ext (s.blockL.insertStreamBefore r t bs) s'.blockL ∧
+    s'.blocksOf r = bs.foldl (fun l b => insBefore l t b) (s.blocksOf r) ∧ bs.Nodup :=
+  insertBlockBefore_single_pass h hok
+
+/-- the same for `Region.add_block` -/
+theorem add_block_single_pass {s s' : IRStore} (h : Inv s) {r : Nat} {bs : List Nat}
+    (hok : s.addBlock r bs = .ok s') :
+    L.Ext (s.blockL.appendStream r bs) s'.blockL ∧ s'.blocksOf r = s.blocksOf r ++ bs ∧ bs.Nodup :=
+  addBlock_single_pass h hok
+
+/-- What a second pass over an exhausted one-shot iterator leaves behind — every block attached
+(`_attach_block` sets the parent) but none linked — is not a consistent structure: no family of lists
+is represented by it. -/
+theorem attach_without_link_counterexample :
+    ¬ ∃ f, WF ((({} : L).pushBack 0 1).setParent 5 (some 0)) f := by
+  rintro ⟨f, h⟩
+  have h5 : 5 ∈ f 0 := (h.mem_iff_parent 0 5).mpr (by decide)
+  rw [← h.toList_eq 0] at h5
+  revert h5
+  decide
+
+/-- non-vacuity: the loops on concrete structures (target first / in the middle; empty / non-empty
+region; empty argument) -/
+example :
+    let s := (({} : L).pushBack 0 1).pushBack 0 2
+    (s.insertStreamBefore 0 2 [5, 6]).toList 0 = [1, 5, 6, 2] ∧
+    (s.insertStreamBefore 0 2 [5, 6]).toListBack 0 = [2, 6, 5, 1] ∧
+    (s.insertStreamBefore 0 1 [5, 6]).toList 0 = [5, 6, 1, 2] ∧
+    (s.insertStreamBefore 0 1 [5, 6]).toListBack 0 = [2, 1, 6, 5] ∧
+    (s.insertStreamBefore 0 1 []).toList 0 = [1, 2] ∧
+    (s.appendStream 0 [5, 6]).toList 0 = [1, 2, 5, 6] ∧
+    (s.appendStream 0 [5, 6]).toListBack 0 = [6, 5, 2, 1] ∧
+    (({} : L).appendStream 0 [5, 6]).toList 0 = [5, 6] ∧
+    (({} : L).appendStream 0 [5, 6]).toListBack 0 = [6, 5] := by decide
 
 /-! ## Part 2 — what the store invariant says -/
 
